@@ -33,6 +33,9 @@ TETS = {
 }
 POTS = {"corner": np.array([1.0, 0.0, 0.0, 0.0]), "regular": np.array([0.0, 0.0, 0.0, 0.7]), "sliver": np.array([0.0, 0.0, 0.0, 0.5])}
 TRANS = [np.array(v, dtype=float) * 0.25 for v in itertools.product((-2, -1, 0, 1, 2), repeat=3)]
+# nearly coinciding faces: lattice translations with |components| <= 0.25 shifted by 2e-7 along x / along the diagonal
+TRANS_TINY = [t + e for t in TRANS if np.max(np.abs(t)) <= 0.25 for e in (np.array([2e-7, 0.0, 0.0]), np.array([1e-7, 1e-7, -1e-7]))]
+FAR = np.array([600.0, -300.0, 200.0])
 TRANS_FINE = [np.array(v, dtype=float) * 0.125 for v in itertools.product(range(-4, 5), repeat=3)]
 MODULI = [(1.0, 1.0), (0.01, 100.0), (100.0, 1.0)]
 BODY_PLACEMENTS = ["stack_z_small", "stack_z_deep", "offset_xy", "side_x", "separated", "touching"]
@@ -56,6 +59,9 @@ def enumerate_states(tier, seed):
                 states.append({"kind": "tets", "tet": name, "rot": r, "mod": mi})
         for r in range(sc.N_CUBE, sc.N_CUBE + 2):
             states.append({"kind": "tets", "tet": name, "rot": r, "mod": 0})
+        for r in (0, 3, 9, 17, 22, sc.N_CUBE):
+            states.append({"kind": "tets", "tet": name, "rot": r, "mod": 0, "far": 1})      # both tetrahedra 700 units from the origin
+            states.append({"kind": "tets", "tet": name, "rot": r, "mod": 0, "tiny": 1})     # faces 1e-7 apart
         if tier == "thorough":
             for r in range(sc.N_CUBE + 2, len(sc.ALL_ROTS)):
                 states.append({"kind": "tets", "tet": name, "rot": r, "mod": 0})
@@ -67,7 +73,7 @@ def enumerate_states(tier, seed):
                 states.append({"kind": "bodies", "a": fa, "b": fb, "pl": pl, "ob": o, "g": 0})
         states.append({"kind": "bodies", "a": fa, "b": fb, "pl": 0, "ob": 0, "g": 1})
         states.append({"kind": "bodies", "a": fa, "b": fb, "pl": 2, "ob": 5, "g": 2})
-    return states, {"bound_completed": "3 reference tetrahedra x 26 rotations x 125 lattice translations x moduli, both argument orders; "
+    return states, {"bound_completed": "3 reference tetrahedra x 26 rotations x 125 lattice translations x moduli, both argument orders (+ 6 rotations 700 units from the origin, + 54 translations with faces 1e-7 apart); "
                                        "36 body pairs x 6 placements x %d orientations + 2 moved frames%s" % (32 if tier == "thorough" else 3,
                                            "; thorough: + 678 further rotations and a 9x9x9 translation lattice (step 0.125) for the 24 cube rotations"
                                            if tier == "thorough" else ""),
@@ -79,8 +85,10 @@ def _viol(entry, kind, cls, detail):
 
 
 def bary(tet, x):
-    M = np.vstack([tet.T, np.ones(4)])
-    return np.linalg.solve(M, np.append(x, 1.0))
+    """Barycentric coordinates, solved relative to the first vertex (well conditioned far from the origin)."""
+    tet = np.asarray(tet, dtype=float)
+    lam = np.linalg.solve((tet[1:] - tet[0]).T, np.asarray(x, dtype=float) - tet[0])
+    return np.concatenate([[1.0 - lam.sum()], lam])
 
 
 def check_polygon(plane, poly, t1, t2, size, cls, entry, ctx, add):
@@ -158,7 +166,8 @@ def same_polygon(p1, p2, tol, n=None):
 def run_tets(desc):
     from distance3d import hydroelastic_contact as hc
     name = desc["tet"]
-    t1 = np.ascontiguousarray(TETS[name])
+    off = FAR if desc.get("far") else np.zeros(3)
+    t1 = np.ascontiguousarray(TETS[name] + off)
     e1 = POTS[name].copy()
     R = sc.ALL_ROTS[desc["rot"]]
     E1, E2 = MODULI[desc["mod"]]
@@ -172,8 +181,8 @@ def run_tets(desc):
     n_eval, nontriv = 0, 0
     X1 = np.ascontiguousarray(hc.barycentric_transforms(t1[np.newaxis])[0])
     for other in TETS:
-        for ti, tr in enumerate(TRANS_FINE if desc.get("fine") else TRANS):
-            t2 = np.ascontiguousarray(TETS[other] @ R.T + tr)
+        for ti, tr in enumerate(TRANS_FINE if desc.get("fine") else TRANS_TINY if desc.get("tiny") else TRANS):
+            t2 = np.ascontiguousarray(TETS[other] @ R.T + tr + off)
             e2 = POTS[other].copy()
             X2 = np.ascontiguousarray(hc.barycentric_transforms(t2[np.newaxis])[0])
             ctx = {"tet1": name, "tet2": other, "rot": desc["rot"], "trans": tr, "moduli": [E1, E2]}
